@@ -497,12 +497,23 @@ RunResult run_plan(const Plan &p, Stats *st, std::vector<uint64_t> *nt_pairs) {
                 typedef decltype(chtag) Ch;
                 RecBuf<Ch> rb(cap); rb.fail_at = k.fault;
                 std::basic_ostream<Ch> os(&rb);
+                // a field width / fill / adjustment left pending on the stream: the statement says "writes exactly its contents", the standard strings
+                // pad to the width - either reading is accepted, anything else (e.g. a wrong number of fill characters) is not
+                std::streamsize fw = 0; std::basic_string<Ch> padded;
+                if constexpr (std::is_same_v<Ch, char> || std::is_same_v<Ch, wchar_t>) if (((k.b >> 1) & 7) == 7 && !k.fault) {
+                    fw = 1 + (std::streamsize)(k.a % 40);
+                    RecBuf<Ch> rb2(cap); std::basic_ostream<Ch> os2(&rb2);
+                    for (std::basic_ostream<Ch> *o : {&os, &os2}) { o->width(fw); o->fill(Ch('#')); o->setf((k.b & 16) ? std::ios_base::left : std::ios_base::right, std::ios_base::adjustfield); }
+                    os2 << std::basic_string<Ch>(expect.begin(), expect.end()); rb2.flush_area(); padded = rb2.data;
+                    if (st) st->probe[PC_OSTREAM_PENDING_WIDTH]++;
+                }
                 unsigned ovf_inside = 0;
                 Ex ex = guarded(budget, st, [&] { os << s; ovf_inside = rb.ovf; });
                 rb.flush_area();
                 flushed_inside = ovf_inside > 0; fault_fired = rb.failed;
                 if (rb.failed) { if (expect.compare(0, rb.data.size(), rb.data) != 0 || rb.data.size() > expect.size()) set_viol(V, "sink_prefix_violated", site, "units accepted before the sink failed are not a prefix of the string"); return; }
                 if (ex != X_NONE) { set_viol(V, "insertion_differs", site, std::string("operator<< threw ") + EXN[ex]); return; }
+                if (fw) { if (rb.data != expect && rb.data != padded) set_viol(V, "insertion_differs", site, "with a pending field width the stream got neither the string's contents nor what a std::basic_string insertion writes: " + first_diff(rb.data, padded)); return; }
                 if (rb.data != expect) set_viol(V, "insertion_differs", site, "stream " + first_diff(rb.data, expect));
             };
             std::wstring ew(Rsc.begin(), Rsc.end()); std::u16string e16; enc16(Rsc, e16);
